@@ -58,10 +58,16 @@ class Task:
 
 
 class Scheduler:
-    def __init__(self, ctx, horizon=4000, delays=True):
+    def __init__(self, ctx, horizon=4000, delays=True, fine=None):
+        """fine: None or a predicate on code objects; inside the frames of
+        such code every source line executed by a fake process is one more
+        scheduling point (what worker processes do to the shared file system
+        between two queue operations is then interleaved too)."""
         self.ctx = ctx
         self.horizon = horizon
         self.delays = delays
+        self.fine = fine
+        self._fine_cache = {}
         self.tasks = [Task(self, 0, "parent")]
         self.tasks[0].started = True
         self.current = self.tasks[0]
@@ -192,12 +198,32 @@ class Scheduler:
         return changed
 
     # ------------------------------------------------------------ tasks
+    def _trace_call(self, frame, event, arg):
+        if event != "call" or self.aborting:
+            return None
+        code = frame.f_code
+        ok = self._fine_cache.get(code)
+        if ok is None:
+            ok = self._fine_cache[code] = bool(self.fine(code))
+        return self._trace_line if ok else None
+
+    def _trace_line(self, frame, event, arg):
+        if event == "line" and not self.aborting:
+            self.point("line:%s:%d" % (frame.f_code.co_name, frame.f_lineno))
+        return self._trace_line
+
     def _run_task(self, task, target, args, kwargs):
+        import sys
         task.sem.acquire()
         try:
             if self.aborting:
                 return
-            target(*args, **kwargs)
+            if self.fine is not None:
+                sys.settrace(self._trace_call)
+            try:
+                target(*args, **kwargs)
+            finally:
+                sys.settrace(None)
         except Abort:
             pass
         except BaseException as exc:      # the fake process crashed
